@@ -372,6 +372,13 @@ def nat_csv(h):
             if limit is not None:
                 exp = exp[:limit]
             gotrows = [[r[n] for n in names] for r in res[0]]
+            if gotrows != exp and not strip and gotrows == [[c.lstrip(' ') for c in r] for r in exp]:
+                # recorded finding F-C13-initial-space-sniffed: csv.Sniffer (through tabulator) guesses skipinitialspace=True for some
+                # files (a quoted cell followed by ', '), and the blanks that open a cell are then dropped although strip=False
+                h.cur = h.cur + '/initial-space-sniffed'
+                h.check(False, P + 'load.py::load', cfg, exp, gotrows)
+                h.cur = h.cur[:-len('/initial-space-sniffed')]
+                continue
             h.check(gotrows == exp, P + 'load.py::load', cfg, exp, gotrows)
         finally:
             shutil.rmtree(d, ignore_errors=True)
